@@ -540,8 +540,122 @@ fn configs(tier: Tier) -> Vec<(Config, usize)> {
     out
 }
 
+// ------------------------------------------------------------------------------------------------
+// Twin-tree interleavings: two trees that differ ONLY in their case mode hold the same pattern and are
+// driven by the same per-tree script (insert, find, warm-up, find). Every interleaving of the two scripts is
+// executed on a thread of its own. The trees share nothing by contract, so every `find` must equal the
+// linear scan of ITS tree whatever the other tree did before — unless the library keeps hidden state
+// between calls (a per-thread or process-wide memo of built regexes, a shared pool of compiled ones).
+
+/// all merges of two sequences of `n` steps each: a vector of 2n tree indices (0 / 1), n of each
+pub fn interleavings(n: usize) -> Vec<Vec<usize>> {
+    fn rec(a: usize, b: usize, cur: &mut Vec<usize>, out: &mut Vec<Vec<usize>>) {
+        if a == 0 && b == 0 {
+            out.push(cur.clone());
+            return;
+        }
+        if a > 0 {
+            cur.push(0);
+            rec(a - 1, b, cur, out);
+            cur.pop();
+        }
+        if b > 0 {
+            cur.push(1);
+            rec(a, b - 1, cur, out);
+            cur.pop();
+        }
+    }
+    let mut out = Vec::new();
+    rec(n, n, &mut Vec::new(), &mut out);
+    out
+}
+
+pub const TWIN_SCRIPT: [&str; 4] = ["insert", "find", "cache", "find"];
+
+/// run one interleaving on the current thread; returns (signature, what) of every wrong answer
+pub fn twin_run(pattern: &str, unique: bool, order: &[usize]) -> Vec<(String, String)> {
+    let modes = [false, true];
+    let mut trees: Vec<Tree> = modes.iter().map(|m| if unique { Tree::Unique(UniqueRegexTreeMap::new(*m)) } else { Tree::Multi(RegexTreeMap::new(*m)) }).collect();
+    let refs: Vec<Option<regex::Regex>> = modes.iter().map(|m| RegexBuilder::new(&format!("^(?:{pattern})$")).case_insensitive(*m).build().ok()).collect();
+    let mut pos = [0usize; 2];
+    let mut out = Vec::new();
+    for (step, &w) in order.iter().enumerate() {
+        match TWIN_SCRIPT[pos[w]] {
+            "insert" => match &mut trees[w] {
+                Tree::Multi(t) => t.insert(pattern, "id", "v".to_string()),
+                Tree::Unique(t) => t.insert(pattern, "v".to_string()),
+            },
+            "cache" => {
+                trees[w].cache(100, None);
+            }
+            _ => {
+                for hay in HAYSTACKS {
+                    let got = trees[w].find(hay);
+                    let want: Vec<String> = if refs[w].as_ref().map(|r| r.is_match(hay)).unwrap_or(false) { vec!["v".to_string()] } else { vec![] };
+                    if got != want {
+                        out.push((
+                            format!("twin-trees:find-depends-on-the-other-tree:pattern={pattern}"),
+                            format!(
+                                "two trees (ignore_case=false / true, unique={unique}) each holding {pattern:?}; per-tree script {TWIN_SCRIPT:?} interleaved as {order:?}: at step {step} find({hay:?}) on the ignore_case={} tree returned {got:?}, its own linear scan gives {want:?}",
+                                modes[w]
+                            ),
+                        ));
+                        return out;
+                    }
+                }
+            }
+        }
+        pos[w] += 1;
+    }
+    out
+}
+
+pub fn twin_patterns() -> Vec<String> {
+    let mut v: Vec<String> = MAIN_PATTERNS.iter().chain(EDGE_PATTERNS.iter()).map(|s| s.to_string()).collect();
+    v.sort();
+    v.dedup();
+    v
+}
+
+/// (interleavings executed, find comparisons)
+pub fn twin_pass(ctx: &Ctx) -> (u64, u64) {
+    let patterns = twin_patterns();
+    let orders = interleavings(TWIN_SCRIPT.len());
+    let runs = AtomicU64::new(0);
+    let work: Vec<(String, bool)> = patterns.iter().flat_map(|p| [(p.clone(), false), (p.clone(), true)]).collect();
+    crate::common::par_range(ctx.threads, work.len(), |i| {
+        let (pattern, unique) = &work[i];
+        for order in &orders {
+            // a thread of its own: per-thread state of the library starts empty for every interleaving
+            let res = std::thread::scope(|s| s.spawn(|| crate::common::guarded(|| twin_run(pattern, *unique, order))).join());
+            runs.fetch_add(1, Ordering::Relaxed);
+            let found = match res {
+                Ok(Ok(v)) => v,
+                Ok(Err((loc, msg))) => vec![(format!("panic:{loc}"), format!("twin trees on {pattern:?} order {order:?}: {msg}"))],
+                Err(_) => vec![],
+            };
+            for (sig, what) in found {
+                ctx.report(Violation { signature: sig, what, case: json!({"twin": {"pattern": pattern, "unique": unique, "order": order}}), weight: 1 });
+            }
+        }
+    });
+    let r = runs.load(Ordering::Relaxed);
+    (r, r * 2 * 2 * HAYSTACKS.len() as u64)
+}
+
 /// Re-execute a recorded history, evaluating every invariant at every prefix.
 pub fn replay(prop: &'static str, case: &Value) -> Vec<String> {
+    if let Some(t) = case.get("twin") {
+        let pattern = t["pattern"].as_str().unwrap_or("").to_string();
+        let unique = t["unique"].as_bool().unwrap_or(false);
+        let order: Vec<usize> = serde_json::from_value(t["order"].clone()).unwrap_or_default();
+        let res = std::thread::scope(|s| s.spawn(|| crate::common::guarded(|| twin_run(&pattern, unique, &order))).join());
+        return match res {
+            Ok(Ok(v)) => v.into_iter().map(|(s, _)| s).collect(),
+            Ok(Err((loc, _))) => vec![format!("panic:{loc}")],
+            Err(_) => vec![],
+        };
+    }
     let ctx = Ctx::new(prop, Tier::Quick, "model_checking");
     let cfg: Config = match serde_json::from_value(case["config"].clone()) {
         Ok(c) => c,
@@ -610,8 +724,12 @@ pub fn run(tier: Tier) -> i32 {
         }
         json!({"depth": depth, "histories_enumerated_without_merging": histories, "distinct_states": distinct, "bfs_states": bfs.states, "agree": true})
     };
+    let (twin_runs, twin_finds) = twin_pass(&ctx);
+    find_checks += twin_finds;
     let mut cov = Coverage::new();
     cov.set("engine_crosscheck", crosscheck);
+    cov.set("twin_tree_interleavings", json!({"patterns": twin_patterns().len(), "script_per_tree": TWIN_SCRIPT, "interleavings_per_pattern_and_kind": interleavings(TWIN_SCRIPT.len()).len(), "executed": twin_runs, "find_comparisons": twin_finds,
+        "what": "two trees differing only in ignore_case, same pattern, every interleaving of the two per-tree scripts on a thread of its own; each find must equal the linear scan of its own tree"}));
     cov.set("states", json!(states))
         .set("transitions", json!(transitions))
         .set("traces_validated_against_impl", json!(transitions))
